@@ -331,3 +331,34 @@ PROPS["C14"] = {
                   "that sees panics, aborts, signals and hangs, with every returned location checked against the source.",
     "level_note": "Coverage is of the generated corpus only; a clean run is not a memory-safety claim (wac itself contains no unsafe code).",
 }
+
+PROPS["C07"] = {
+    "shards": 8,
+    "quick_budget_s": 60,
+    "thorough_budget_s": 600,
+    "floors": {"any": {"func:wac-accepts": 50, "func:wac-rejects": 1000, "named-type:wac-rejects": 300, "instance:wac-accepts": 50,
+                       "component:wac-accepts": 50, "module:wac-accepts": 200, "module:wac-rejects": 500, "reflexivity-checks": 100,
+                       "memo-rounds": 10, "set-argument-verdicts": 3000, "resource-wiring:compositions": 10}},
+    "rule": "Small-scope universe, enumerated completely: 59 function types (every one of 25 value types - primitives, list, option, "
+            "all four result arms, tuples, nested - as the single parameter and as the result; arity, parameter-name, order and async "
+            "variations), 23 named-type variations (record field rename/retype/add/reorder, variant and enum width/order/payload, "
+            "flags, aliases) compared through instance types that export them, 21 instance types (width, nested instance / "
+            "component / module / value / type exports), 18 component types (import and export width both ways, value imports), 50 "
+            "core module types (function signatures, memory/table limits, memory64/table64, shared, element types, global "
+            "mutability and type, tags, on both the import and the export side) and a mixed-kind set. The items of a category are "
+            "the imports of ONE component, so wac's decoder and wasmparser read the same bytes; every ordered pair is checked with "
+            "a fresh SubtypeChecker, with wasmparser's ComponentEntityType::is_subtype_of, and through set_instantiation_argument "
+            "on a graph whose persistent cache accumulates over the whole category; laws: reflexive across two independent decodes "
+            "(both directions), transitive on the verdict matrix, unchanged under 3 random orders sharing one memo. Random part: "
+            "shuffled sub-universes, and libraries with resources where one provider exports exactly what a consumer imports and "
+            "every accepted argument is wired: the encoding must validate. Non-trivial: ordered pair of different items.",
+    "exhaustive_note": "all ordered pairs of the listed item universe are enumerated on every run; the shuffled sub-universes and resource wirings are sampled",
+    "assumptions": ["wasmparser 0.247 ComponentEntityType::is_subtype_of is the reference relation",
+                    "pairs differing in the table64 flag are not compared with the reference: wasmparser's module-type matching ignores that flag, wac's stricter verdict follows the core spec and is pinned by the repository's test mismatched_table64_is_rejected",
+                    "pairs involving resource types are only checked for the algebraic laws and, in the wiring workload, for validity"],
+    "technique": "runtime monitor: differential oracle against wasmparser's subtype relation on identical bytes + algebraic laws over the verdict matrix",
+    "level_text": "Every verdict of the checker on the enumerated universe is compared with the reference validator's own subtype "
+                  "relation, and the relation's laws (reflexive, transitive, memo-independent, same through the graph API) are checked on "
+                  "the full matrix; an omitted comparison shows up as a disagreeing pair.",
+    "level_note": "Depth <= 2 universe; deeper types only through the WIT-derived resource-wiring workload.",
+}
